@@ -285,12 +285,33 @@ def run(S, tier, rep):
         rejection(S, rep, dim)
     derived_classes(S, rep)
     eulerian_convenience_class(S, rep)
+    unnamed_grids(S, rep)
     from .c10 import wrappers_forward_options
     wrappers_forward_options(S, rep, rule="C17.w", family_root="IO", min_found=2)
-    rep.require_min("C17.a", 20)
+    rep.require_min("C17.a", 22)
     rep.require_min("C17.g", 12)
     rep.require_min("C17.b", 30)
     rep.require_min("C17.d", 16)
+
+
+def unnamed_grids(S, rep, rule="C17.a"):
+    """grids registered without a name get distinct default names: otherwise a later grid silently replaces an earlier one in
+    the registry that save and load iterate, and its fields are neither written nor restored"""
+    I = S.I
+    mod = S.module(IOMOD)
+    I.skip_functions = {"generate_xdmf_eulerian", "generate_xdmf_lagrangian"}
+    cls = mod.vars["IO"]
+    for dim in (2, 3):
+        io = I.call(cls, [], dict(dim=dim, real_dtype=S.real_t), None, mod)
+        grids = [sym_array(S, "ug%d_%d" % (k, dim), (dim, sym("N"))) for k in range(4)]
+        for g in grids:
+            I.call(I.get_attr(io, "add_as_lagrangian_fields_for_io", None, mod), [], dict(lagrangian_grid=g), None, mod)
+        reg = io.attrs.get("lagrangian_grids")
+        names = list(reg.keys()) if isinstance(reg, dict) else None
+        kept = [v.alloc.id for v in reg.values() if isinstance(v, Arr)] if isinstance(reg, dict) else []
+        ok = names is not None and len(names) == len(grids) and all(g.alloc.id in kept for g in grids)
+        rep.ob(rule, "%dD four grids registered without a name stay four grids" % dim, ok,
+               "registry holds %s for 4 registered grids" % (names,), key="%s|unnamed|%d|%s" % (rule, dim, names), nontrivial=False)
 
 
 def eulerian_convenience_class(S, rep):
